@@ -792,6 +792,15 @@ def check_c06(world):
     except Exception:
         exp_all = {}
     period = max([s.get('period_ns', 0) for s in nodes.values() if s.get('src')] or [0])
+
+    def _req_of(p):
+        req = nodes[p].get('outputs_required') or []
+        return [x.strip() for x in req.split(',')] if isinstance(req, str) else list(req)
+    # the configuration of the open twice-attached finding (DESIGN.md 12.2): a filter attached to ONE publisher both
+    # synchronized and with '?', and named in that publisher's outputs_required
+    twice_req = any(len({bool(x.get('eph')) for x in sp.get('sources') or [] if x['from'] == y['from']}) > 1
+                    and n2 in _req_of(y['from'])
+                    for n2, sp in nodes.items() for y in sp.get('sources') or [])
     allow = {}
     for n in sync_nodes:
         if n not in exp_inputs:
@@ -823,7 +832,7 @@ def check_c06(world):
                              f'{n}: no new frame within {Hn / 1e9:.2f}s after the last fault ended at '
                              f'{(t_ref - EPOCH_NS) / 1e9:.3f}s (fault class {cls}; last frame before: '
                              f'{"never" if last is None else f"{(last - EPOCH_NS) / 1e9:.3f}s"}; stop {world.stop_reason})',
-                             None, t_ref, fault=cls, shape=sc['shape']))
+                             None, t_ref, fault=cls, shape=sc['shape'], twice_attached_required=twice_req))
             else:
                 d = (got[0] - t_ref) * 100 // Hn
                 stats['c06_heal_pct_of_H_max'] = max(stats['c06_heal_pct_of_H_max'], d)
@@ -836,7 +845,7 @@ def check_c06(world):
                 if b - a > allow[n]:
                     out.append(V('C06', 'stuck', f'{n}: {((b - a) / 1e9):.2f}s without a new frame after '
                                  f'{(a - EPOCH_NS) / 1e9:.3f}s (bound {allow[n] / 1e9:.2f}s, fault class {cls})', None, a,
-                                 fault=cls, shape=sc['shape']))
+                                 fault=cls, shape=sc['shape'], twice_attached_required=twice_req))
                     break
     # ordering guarantee still holds
     for v in check_c02(world):
